@@ -1,5 +1,5 @@
 use crate::interface::config::GenerateConfig;
-use crate::models::{CommandInfo, StructInfo, ValidatorAttributes};
+use crate::models::{CommandInfo, EventInfo, StructInfo, ValidatorAttributes};
 use serde::{Deserialize, Serialize};
 use std::collections::{BTreeMap, HashMap};
 use std::fs;
@@ -30,6 +30,9 @@ pub struct GenerationCache {
     structs_hash: String,
     /// Hash of configuration settings that affect output
     config_hash: String,
+    /// Hash of all discovered events
+    #[serde(default)]
+    events_hash: String,
     /// Combined hash for quick comparison
     combined_hash: String,
 }
@@ -43,16 +46,32 @@ impl GenerationCache {
         structs: &HashMap<String, StructInfo>,
         config: &GenerateConfig,
     ) -> Result<Self, CacheError> {
+        Self::with_events(commands, structs, &[], config)
+    }
+
+    /// Create a new cache from current generation state, including the discovered events
+    pub fn with_events(
+        commands: &[CommandInfo],
+        structs: &HashMap<String, StructInfo>,
+        events: &[EventInfo],
+        config: &GenerateConfig,
+    ) -> Result<Self, CacheError> {
         let commands_hash = Self::hash_commands(commands)?;
         let structs_hash = Self::hash_structs(structs)?;
         let config_hash = Self::hash_config(config)?;
-        let combined_hash = Self::combine_hashes(&commands_hash, &structs_hash, &config_hash)?;
+        let events_hash = Self::hash_events(events)?;
+        let combined_hash = Self::combine_hashes(
+            &commands_hash,
+            &structs_hash,
+            &format!("{}{}", config_hash, events_hash),
+        )?;
 
         Ok(Self {
             version: Self::CURRENT_VERSION,
             commands_hash,
             structs_hash,
             config_hash,
+            events_hash,
             combined_hash,
         })
     }
@@ -86,6 +105,17 @@ impl GenerationCache {
         structs: &HashMap<String, StructInfo>,
         config: &GenerateConfig,
     ) -> Result<bool, CacheError> {
+        Self::needs_regeneration_with_events(output_dir, commands, structs, &[], config)
+    }
+
+    /// Check if generation is needed, taking the discovered events into account
+    pub fn needs_regeneration_with_events<P: AsRef<Path>>(
+        output_dir: P,
+        commands: &[CommandInfo],
+        structs: &HashMap<String, StructInfo>,
+        events: &[EventInfo],
+        config: &GenerateConfig,
+    ) -> Result<bool, CacheError> {
         // Try to load previous cache
         let previous_cache = match Self::load(&output_dir) {
             Ok(cache) => cache,
@@ -101,7 +131,7 @@ impl GenerationCache {
         }
 
         // Generate current cache
-        let current_cache = Self::new(commands, structs, config)?;
+        let current_cache = Self::with_events(commands, structs, events, config)?;
 
         // Compare combined hashes
         Ok(previous_cache.combined_hash != current_cache.combined_hash)
@@ -219,6 +249,26 @@ impl GenerationCache {
                     })
                     .collect(),
                 serde_rename_all: s.serde_rename_all.map(|rule| format!("{:?}", rule)),
+            })
+            .collect();
+
+        let json = serde_json::to_string(&hash_data)?;
+        Ok(Self::compute_hash(&json))
+    }
+
+    /// Generate a deterministic hash of events
+    fn hash_events(events: &[EventInfo]) -> Result<String, CacheError> {
+        #[derive(Serialize)]
+        struct EventHashData<'a> {
+            event_name: &'a str,
+            payload_type: &'a str,
+        }
+
+        let hash_data: Vec<EventHashData> = events
+            .iter()
+            .map(|e| EventHashData {
+                event_name: &e.event_name,
+                payload_type: &e.payload_type,
             })
             .collect();
 
